@@ -3,7 +3,12 @@
 package main
 
 import (
+	"bytes"
 	"fmt"
+	"image"
+	"image/color"
+	"image/draw"
+	"image/png"
 
 	"github.com/makiuchi-d/gozxing"
 	qrdec "github.com/makiuchi-d/gozxing/qrcode/decoder"
@@ -155,10 +160,87 @@ func c14RenderWith(r *fw.Rec, ws *writerSpec, w gozxing.Writer, content string, 
 		}
 	}
 	r.Tally("renderings_equal_" + ws.Name)
+	if outW*outH <= 2048 || (outW*outH <= 1<<20 && r.Rng.Intn(10) == 0) {
+		if !c14ImageView(r, ws, bm, info) {
+			return false
+		}
+	}
 	if s > 1 {
 		r.Tally("renderings_scaled")
 	}
 	r.Max("max_scale", int64(s))
+	return true
+}
+
+// c14ImageView consumes the rendering the way Go programs do - as an image.Image, through
+// At/Bounds/ColorModel, through image/draw (which prefers the faster optional interfaces of an
+// image when it offers them) and through the PNG encoder - and compares with the bits:
+// a set bit is opaque black, everything else opaque white.
+func c14ImageView(r *fw.Rec, ws *writerSpec, bm *gozxing.BitMatrix, info map[string]interface{}) bool {
+	var img image.Image = bm
+	w, h := bm.GetWidth(), bm.GetHeight()
+	fail := func(sig, msg string) bool {
+		r.Violation("model-mismatch", "image-view:"+sig, fmt.Sprintf("%s rendering %dx%d as image.Image: %s", ws.Name, w, h, msg), info)
+		return false
+	}
+	if img.Bounds() != image.Rect(0, 0, w, h) {
+		return fail("bounds", fmt.Sprintf("Bounds() = %v", img.Bounds()))
+	}
+	over := image.NewRGBA(img.Bounds())
+	draw.Draw(over, over.Bounds(), image.NewUniform(color.RGBA{0xff, 0xff, 0xff, 0xff}), image.Point{}, draw.Src)
+	draw.Draw(over, over.Bounds(), img, image.Point{}, draw.Over)
+	src := image.NewRGBA(img.Bounds())
+	draw.Draw(src, src.Bounds(), img, image.Point{}, draw.Src)
+	gray := image.NewGray(img.Bounds())
+	draw.Draw(gray, gray.Bounds(), img, image.Point{}, draw.Src)
+	var decoded image.Image
+	if r.Rng.Intn(3) == 0 {
+		var buf bytes.Buffer
+		if err := png.Encode(&buf, img); err != nil {
+			return fail("png-encode", err.Error())
+		}
+		d, err := png.Decode(&buf)
+		if err != nil {
+			return fail("png-decode", err.Error())
+		}
+		decoded = d
+	}
+	for y := 0; y < h; y++ {
+		for x := 0; x < w; x++ {
+			var want uint32 = 0xffff
+			if bm.Get(x, y) {
+				want = 0
+			}
+			cr, cg, cb, ca := img.At(x, y).RGBA()
+			if cr != want || cg != want || cb != want || ca != 0xffff {
+				return fail("At", fmt.Sprintf("At(%d,%d) = (%#x,%#x,%#x,%#x), bit is %v", x, y, cr, cg, cb, ca, bm.Get(x, y)))
+			}
+			mr, mg, mb, ma := img.ColorModel().Convert(img.At(x, y)).RGBA()
+			if mr != want || mg != want || mb != want || ma != 0xffff {
+				return fail("ColorModel", fmt.Sprintf("ColorModel().Convert(At(%d,%d)) = (%#x,%#x,%#x,%#x), bit is %v", x, y, mr, mg, mb, ma, bm.Get(x, y)))
+			}
+			w8 := uint8(want >> 8)
+			if c := over.RGBAAt(x, y); c != (color.RGBA{w8, w8, w8, 0xff}) {
+				return fail("draw-over-white", fmt.Sprintf("drawn over a white page, pixel (%d,%d) = %v, bit is %v", x, y, c, bm.Get(x, y)))
+			}
+			if c := src.RGBAAt(x, y); c != (color.RGBA{w8, w8, w8, 0xff}) {
+				return fail("draw-src", fmt.Sprintf("copied with draw.Src, pixel (%d,%d) = %v, bit is %v", x, y, c, bm.Get(x, y)))
+			}
+			if c := gray.GrayAt(x, y); c.Y != w8 {
+				return fail("draw-gray", fmt.Sprintf("copied into a Gray image, pixel (%d,%d) = %v, bit is %v", x, y, c, bm.Get(x, y)))
+			}
+			if decoded != nil {
+				dr, dg, db, da := decoded.At(x, y).RGBA()
+				if dr != want || dg != want || db != want || da != 0xffff {
+					return fail("png-roundtrip", fmt.Sprintf("after PNG encode/decode pixel (%d,%d) = (%#x,%#x,%#x,%#x), bit is %v", x, y, dr, dg, db, da, bm.Get(x, y)))
+				}
+			}
+		}
+	}
+	r.Tally("renderings_consumed_as_image")
+	if decoded != nil {
+		r.Tally("renderings_png_roundtrip")
+	}
 	return true
 }
 
@@ -220,6 +302,39 @@ func c14(c *fw.Ctx) {
 					if w == N+1 && k == 0 {
 						r.Sample(map[string]interface{}{"writer": ws.Name, "content": content, "modules": fmt.Sprintf("%dx%d", len(mod[0]), len(mod)), "requested_width": w, "heights": "0..2N+3 (2-D) / {0,1,2,3,7} (1-D)", "margin": "default"})
 					}
+				})
+			}
+			// big modules: 33..140 pixels per module, where a block spans several 32-bit words
+			nbig := c.Pick(6, 60)
+			for i := 0; i < nbig; i++ {
+				i := i
+				c.Run(fmt.Sprintf("big/%s/%d/%d", ws.Name, k, i), func(r *fw.Rec) {
+					content, mod, ok := gen(r)
+					if !ok {
+						return
+					}
+					rng := r.Rng
+					sc := []int{33, 34, 63, 64, 65, 66, 95, 96, 97, 127, 128, 129, 140}[rng.Intn(13)]
+					if rng.Intn(3) == 0 {
+						sc = 33 + rng.Intn(108)
+					}
+					if !ws.OneD && sc > 100 {
+						sc = 33 + rng.Intn(68)
+					}
+					margin := -1
+					if ws.Name != "DATA_MATRIX" && rng.Bool() {
+						margin = rng.Intn(6)
+					}
+					ow, oh, _, _, _ := c14Expect(ws, mod, 0, 0, margin)
+					w, h := ow*sc+rng.Intn(sc), oh*sc+rng.Intn(sc)
+					if ws.OneD {
+						h = 1 + rng.Intn(4)
+					}
+					if !c14Render(r, ws, content, mod, w, h, margin) {
+						return
+					}
+					r.Tally("renderings_with_modules_of_33_pixels_or_more")
+					r.Nontrivial(fmt.Sprintf("big|%s|%s|%d|%d|%d", ws.Name, content, w, h, margin))
 				})
 			}
 			// margins 0..20 and sizes up to 8N
@@ -284,6 +399,9 @@ func c14(c *fw.Ctx) {
 	c.Floor("renderings_scaled", 1000)
 	c.Floor("renderings_with_margin_hint", 1000)
 	c.Floor("renders_via_EncodeWithoutHint", 500)
+	c.Floor("renderings_with_modules_of_33_pixels_or_more", 150)
+	c.Floor("renderings_consumed_as_image", 5000)
+	c.Floor("renderings_png_roundtrip", 1000)
 	for i := range allWriters {
 		c.Floor("renderings_equal_"+allWriters[i].Name, 500)
 	}
